@@ -27,6 +27,8 @@ CONSTANTS
  Aead = TRUE
  CheckIdent = TRUE
  RelayOnce = TRUE
+ SuspendJoin = FALSE
+ JoinCacheFirst = TRUE
  AutoTimers = FALSE
 INVARIANT TraceAccepted
 INVARIANT ExitIntegrity
